@@ -25,26 +25,27 @@ type typ struct {
 	Iface   string // an interface Type implements ("" if none besides any)
 	Discard bool   // has Discard() bool
 	OtherNm string // for named types: another named type with identical underlying type (NOT assignable)
+	ImpIf   string // an interface of a package the generated code has no other reason to import, implemented by Type
 }
 
 var universe = []typ{
 	{Key: "int", Type: "int", Val: "7", OtherNm: "myIntT"},
 	{Key: "string", Type: "string", Val: `"v"`, OtherNm: "myStrT"},
-	{Key: "node", Type: "*nodeT", Val: "theNode", Unnamed: true, Named: "nodePT", Iface: "ifaceB", Discard: true},
-	{Key: "rec", Type: "recT", Val: `recT{3, "r"}`, Iface: "ifaceA", Discard: true, OtherNm: "rec2T"},
+	{Key: "node", Type: "*nodeT", Val: "theNode", Unnamed: true, Named: "nodePT", Iface: "ifaceB", Discard: true, ImpIf: "fmt.Stringer"},
+	{Key: "rec", Type: "recT", Val: `recT{3, "r"}`, Iface: "ifaceA", Discard: true, OtherNm: "rec2T", ImpIf: "fmt.Stringer"},
 	{Key: "slice", Type: "[]int", Val: "[]int{1, 2}", Unnamed: true, Named: "intsT"},
 	{Key: "nslice", Type: "intsT", Val: "intsT{4}", OtherNm: "ints2T"},
 	{Key: "map", Type: "map[string]int", Val: `map[string]int{"k": 1}`, Unnamed: true, Named: "mapT"},
 	{Key: "fn", Type: "func(int) int", Val: "theFunc", Unnamed: true, Named: "fnT"},
-	{Key: "ptr", Type: "*recT", Val: "theRec", Unnamed: true, Named: "recPT", Iface: "ifaceA"},
+	{Key: "ptr", Type: "*recT", Val: "theRec", Unnamed: true, Named: "recPT", Iface: "ifaceA", ImpIf: "fmt.Stringer"},
 	{Key: "chan", Type: "chan int", Val: "theChan", Unnamed: true, Named: "<-chan int"},
 	{Key: "chan2", Type: "chan int", Val: "theChan", Unnamed: true, Named: "chT"},
 	{Key: "iface", Type: "ifaceA", Val: `ifaceA(recT{5, "i"})`},
 	{Key: "any", Type: "any", Val: "any(42)"},
 	{Key: "box", Type: "boxT[int]", Val: "boxT[int]{V: 9}", OtherNm: "box2T"},
 	{Key: "dur", Type: "time.Duration", Val: "3 * time.Second", OtherNm: "myDurT"},
-	{Key: "buf", Type: "*bytes.Buffer", Val: "theBuf", Unnamed: true, Named: "bufPT"},
-	{Key: "sb", Type: "*strings.Builder", Val: "theSB", Unnamed: true, Named: "sbPT"},
+	{Key: "buf", Type: "*bytes.Buffer", Val: "theBuf", Unnamed: true, Named: "bufPT", ImpIf: "io.Writer"},
+	{Key: "sb", Type: "*strings.Builder", Val: "theSB", Unnamed: true, Named: "sbPT", ImpIf: "io.Writer"},
 	{Key: "arr", Type: "[2]int", Val: "[2]int{1, 2}", Unnamed: true, Named: "arrT"},
 	{Key: "ustruct", Type: "struct{ X int }", Val: "struct{ X int }{8}", Unnamed: true, Named: "xsT"},
 	{Key: "tok", Type: "Token", Val: "Token{ID: 99, Idx: 99}", Discard: true, OtherNm: "tok2T"},
@@ -68,6 +69,7 @@ type nodeT struct{ N int }
 
 func (n *nodeT) Discard() bool { return false }
 func (n *nodeT) MB() int       { return n.N }
+func (n *nodeT) String() string { return "node" }
 
 type recT struct {
 	A int
@@ -76,6 +78,7 @@ type recT struct {
 
 func (r recT) Discard() bool { return false }
 func (r recT) MA() int       { return r.A }
+func (r recT) String() string { return r.B }
 
 type pdT struct{ N int }
 
@@ -143,9 +146,12 @@ type Case struct {
 	// ext-test-last / ext-test-first (external test package PKG_test in zz_test.go / a_test.go),
 	// int-test-last (in-package test file), ignored-last (//go:build ignore, package main, zzgen.go),
 	Beside string `json:",omitempty"`
-	Detail string `json:",omitempty"`
-	Lox    string `json:",omitempty"`
-	Go     string `json:",omitempty"`
+	// Variadic: a further rule "vt = A C*" whose action takes the list through a variadic
+	// parameter (cs ...Token has type []Token: a legal binding that must also compile)
+	Variadic bool   `json:",omitempty"`
+	Detail   string `json:",omitempty"`
+	Lox      string `json:",omitempty"`
+	Go       string `json:",omitempty"`
 }
 
 func (c *Case) typ() typ {
@@ -187,6 +193,13 @@ func (c *Case) paramType() (p string, legal bool, exists bool) {
 			return "", true, false
 		}
 		return t.Iface, true, true
+	case "iface-imported":
+		// an interface of an imported package that no term, rule or helper type mentions: the
+		// generated file must not end up importing that package for nothing (or failing to)
+		if isSlice || t.ImpIf == "" {
+			return "", true, false
+		}
+		return t.ImpIf, true, true
 	case "assignable":
 		if isSlice {
 			// []T is unnamed: a named slice type with the same underlying type is assignable
@@ -265,7 +278,7 @@ func (c *Case) besideFile() (string, string) {
 
 var extraKinds = []string{"", "", "", "opt", "plus", "star", "list", "listopt"}
 
-var paramKinds = []string{"exact", "any", "iface", "assignable", "neg-othernamed", "neg-pointer", "neg-iface"}
+var paramKinds = []string{"exact", "any", "iface", "iface-imported", "assignable", "neg-othernamed", "neg-pointer", "neg-iface"}
 var structKinds = []string{"ok", "ok", "ok", "shared", "shared-mixed", "neg-missing", "neg-arity", "neg-ambiguous", "neg-returns", "neg-orphan", "neg-results0", "neg-results2"}
 
 type rendered struct {
@@ -362,6 +375,11 @@ func (c *Case) render() (*rendered, bool) {
 			r.expectN = append(r.expectN, extraN[i])
 		}
 	}
+	if c.Variadic {
+		lox.WriteString("  | B B vt\n")
+		r.sentences = append(r.sentences, []int{tB, tB, tA, tC, tC}, []int{tB, tB, tA})
+		r.expectN = append(r.expectN, 2, 0)
+	}
 	xLine := strings.Count(lox.String(), "\n") + 1
 	if c.Skel != "tokstar" {
 		lox.WriteString("x = C\n")
@@ -369,16 +387,19 @@ func (c *Case) render() (*rendered, bool) {
 	if c.Struct == "shared-mixed" {
 		lox.WriteString("y = C\n")
 	}
+	if c.Variadic {
+		lox.WriteString("vt = A C*\n")
+	}
 	r.lox = lox.String()
 
 	var g strings.Builder
-	g.WriteString("package PKGNAME\n\nimport (\n\t\"bytes\"\n\t\"reflect\"\n\t\"strings\"\n\t\"time\"\n\n\thp \"verifscratch/helper/PKGNAME\"\n)\n\nvar _ hp.NodeH\nvar _ = time.Second\nvar _ = strings.Repeat\nvar _ bytes.Buffer\n")
+	g.WriteString("package PKGNAME\n\nimport (\n\t\"bytes\"\n\t\"fmt\"\n\t\"io\"\n\t\"reflect\"\n\t\"strings\"\n\t\"time\"\n\n\thp \"verifscratch/helper/PKGNAME\"\n)\n\nvar _ hp.NodeH\nvar _ fmt.Stringer\nvar _ io.Writer\nvar _ = time.Second\nvar _ = strings.Repeat\nvar _ bytes.Buffer\n")
 	g.WriteString(decls)
 	tt, _ := c.termType()
 	g.WriteString("\ntype listPT " + strings.Replace(tt, "*[]", "[]", 1) + "\n")
 	if !strings.HasPrefix(tt, "[]") {
 		g.Reset()
-		g.WriteString("package PKGNAME\n\nimport (\n\t\"bytes\"\n\t\"reflect\"\n\t\"strings\"\n\t\"time\"\n\n\thp \"verifscratch/helper/PKGNAME\"\n)\n\nvar _ hp.NodeH\nvar _ = time.Second\nvar _ = strings.Repeat\nvar _ bytes.Buffer\n")
+		g.WriteString("package PKGNAME\n\nimport (\n\t\"bytes\"\n\t\"fmt\"\n\t\"io\"\n\t\"reflect\"\n\t\"strings\"\n\t\"time\"\n\n\thp \"verifscratch/helper/PKGNAME\"\n)\n\nvar _ hp.NodeH\nvar _ fmt.Stringer\nvar _ io.Writer\nvar _ = time.Second\nvar _ = strings.Repeat\nvar _ bytes.Buffer\n")
 		g.WriteString(decls)
 		g.WriteString("\ntype listPT []int\n")
 	}
@@ -578,7 +599,7 @@ func Run(toks []int, n int) (r Result) {
 		// the diagnostic must name that very method / rule
 	default:
 		// the fault involves rule s: any of its productions' lines or one of its methods
-		r.blame = []string{fmt.Sprintf("g.lox:%d:", sLine), fmt.Sprintf("g.lox:%d:", sLine+1), fmt.Sprintf("g.lox:%d:", sLine+2), fmt.Sprintf("g.lox:%d:", sLine+3), "on_s"}
+		r.blame = []string{fmt.Sprintf("g.lox:%d:", sLine), fmt.Sprintf("g.lox:%d:", sLine+1), fmt.Sprintf("g.lox:%d:", sLine+2), fmt.Sprintf("g.lox:%d:", sLine+3), fmt.Sprintf("g.lox:%d:", sLine+4), "on_s"}
 	}
 	if extraTerm != "" {
 		// the second use of x: exact parameter type, value checked like the main one
@@ -591,6 +612,10 @@ func Run(toks []int, n int) (r Result) {
 		}
 		fmt.Fprintf(&g, "\nfunc (p *prs) on_e(a Token, v %s, b Token) int {\n\tif !(p.n == 0 && any(v) == nil) {\n\t\tp.check(\"parameter for second use %s\", v, %s)\n\t}\n\treturn 3\n}\n", extraTT, extraTerm, want)
 		g.WriteString("\nfunc (p *prs) on_s__e(a Token, v int) int { return v }\n")
+	}
+	if c.Variadic {
+		g.WriteString("\nfunc (p *prs) on_vt(a Token, cs ...Token) int {\n\tp.check(\"number of elements in the variadic parameter for C*\", len(cs), p.n)\n\treturn len(cs)\n}\n")
+		g.WriteString("\nfunc (p *prs) on_s__vt(a Token, b Token, v int) int { return v }\n")
 	}
 	if c.Skel == "err" {
 		g.WriteString("\nfunc (p *prs) on_s__err(a Token, e Error, b Token) int {\n\tp.errs++\n\treturn 2\n}\n")
@@ -686,6 +711,9 @@ func eval(run *ev.Run, cases []*Case, count bool) ([]verdict, error) {
 			}
 			if c.Beside != "" {
 				run.Class("beside:" + c.Beside)
+			}
+			if c.Variadic {
+				run.Class("variadic-action")
 			}
 			if r.positive {
 				run.Class("expected:accept")
@@ -831,6 +859,7 @@ func genCase(rt *rapid.T) *Case {
 		}
 		c.ExtraBefore = c.Extra != "" && rapid.Bool().Draw(rt, "extraBefore")
 		c.Beside = besideKinds[rapid.IntRange(0, len(besideKinds)-1).Draw(rt, "beside")]
+		c.Variadic = rapid.IntRange(0, 5).Draw(rt, "variadic") == 0
 		if c.Skel == "tokstar" {
 			c.T = "tok"
 			c.Extra, c.ExtraBefore = "", false
@@ -909,7 +938,7 @@ func TestC06(t *testing.T) {
 						for try := 0; try < 50; try++ {
 							c := &Case{Skel: sk, Extra: ex, ExtraBefore: before,
 								T:      universe[rapid.IntRange(0, len(universe)-1).Draw(rt, "type")].Key,
-								Param:  []string{"exact", "exact", "any", "assignable", "iface"}[rapid.IntRange(0, 4).Draw(rt, "param")],
+								Param:  []string{"exact", "exact", "any", "assignable", "iface", "iface-imported"}[rapid.IntRange(0, 5).Draw(rt, "param")],
 								Struct: []string{"ok", "shared"}[rapid.IntRange(0, 1).Draw(rt, "struct")],
 							}
 							if r, ok := c.render(); ok && r.positive && !r.uncompil {
